@@ -1,12 +1,48 @@
-(* C40 -- the link between the generated REPL code and the abstract machine (by computation, on
-   tables), and regression sessions run on the generated code. *)
-From HyV Require Import State.Repl State.ReplAbstract State.ReplSweep.
+(* C40 -- sessions: the generated code, input after input, implements [run_abstract]; regression
+   sessions run on the generated code. *)
+From HyV Require Import State.Repl State.ReplAbstract State.ReplLift State.ReplSweep.
 
-(* every tabulated single input from every tabulated start state, and every session of at most three
-   inputs over the alphabet: the generated code and [step] / [run_abstract] agree on the returned
-   value, last_value, the print flag, *1 *2 *3 and *e *)
-Lemma generated_code_implements_step_on_tables : sweep_single = true /\ sweep_sessions 3 = true.
-Proof. split; vm_compute; reflexivity. Qed.
+Lemma observe_mkheap lv pf gv a b c e info rest h0 :
+  observe (mkheap lv pf gv a b c e info rest h0) = Some (rs lv pf a b c e).
+Proof. reflexivity. Qed.
+
+Lemma rs_eta r : rs (r_last r) (r_print r) (r_1 r) (r_2 r) (r_3 r) (r_e r) = r.
+Proof. destruct r; reflexivity. Qed.
+
+(* Any session, of any length, on any REPL state, with any values, output script and sane class
+   matcher: the generated code never leaves the fragment or runs out of fuel, and the REPL part of
+   the heap afterwards is exactly what the abstract machine computes (everything else -- other
+   variables, other heap objects -- is untouched). *)
+Theorem session_implements_machine m out (S : sane m) inputs :
+  forall lv pf gv a b c e info rest h0 log,
+  exists gv' info' log',
+    let r' := run_abstract m out inputs (rs lv pf a b c e) in
+    run_inputs m out inputs (mkheap lv pf gv a b c e info rest h0, log) =
+    Some (mkheap (r_last r') (r_print r') gv' (r_1 r') (r_2 r') (r_3 r') (r_e r') info' rest h0, log').
+Proof.
+  induction inputs as [|inp r IH]; intros lv pf gv a b c e info rest h0 log.
+  - exists gv, info, log. reflexivity.
+  - destruct (generated_code_implements_step m out inp S lv pf gv a b c e info rest h0 log) as (gv1 & info1 & log1 & E).
+    cbv zeta in E. cbn [run_inputs run_abstract]. rewrite E.
+    set (r1 := fst (step m out inp (rs lv pf a b c e))) in *.
+    destruct (IH (r_last r1) (r_print r1) gv1 (r_1 r1) (r_2 r1) (r_3 r1) (r_e r1) info1 rest h0 log1) as (gv2 & info2 & log2 & E2).
+    cbv zeta in E2. rewrite rs_eta in E2.
+    exists gv2, info2, log2.
+    destruct (snd (step m out inp (rs lv pf a b c e))); exact E2.
+Qed.
+
+(* for a new REPL and the generated class table *)
+Corollary session_observed out inputs :
+  exists h log, run_session inputs out = Some (h, log) /\ observe h = Some (run_abstract table out inputs initial).
+Proof.
+  destruct (session_implements_machine table out table_sane inputs VNone true false VNone VNone VNone VNone VNone [] [] [])
+    as (gv' & info' & log' & E).
+  cbv zeta in E. eexists _, _. split; [exact E|]. rewrite observe_mkheap, rs_eta. reflexivity.
+Qed.
+
+(* the finite cross-check by plain computation (all pairs of 84 letters after a two-input prefix) *)
+Lemma cross_check : sweep_pairs = true.
+Proof. vm_compute. reflexivity. Qed.
 
 (* the session that used to repeat a result (hy before 7e4d2e4): inputs `1` then `(/ 1 0)`.
    On the generated code: *1 = 1, *2 = *3 = None, *e = the ZeroDivisionError. *)
@@ -15,7 +51,7 @@ Definition regression_run : Prop :=
   match run_session regression_session (fun _ => None) with
   | Some (h, _) =>
       match observe h with
-      | Some o => r_1 o = VInt 1 /\ r_2 o = VNone /\ r_3 o = VNone /\ r_e o = Some (VExc "ZeroDivisionError" 0)
+      | Some o => r_1 o = VInt 1 /\ r_2 o = VNone /\ r_3 o = VNone /\ r_e o = VExc "ZeroDivisionError" 0
       | None => False
       end
   | None => False
@@ -31,7 +67,7 @@ Definition regression_run2 : Prop :=
   match run_session regression_session2 (fun _ => None) with
   | Some (h, _) =>
       match observe h with
-      | Some o => r_1 o = VInt 3 /\ r_2 o = VNone /\ r_3 o = VInt 2 /\ r_e o = Some (VExc "HyMacroExpansionError" 3)
+      | Some o => r_1 o = VInt 3 /\ r_2 o = VNone /\ r_3 o = VInt 2 /\ r_e o = VExc "HyMacroExpansionError" 3
       | None => False
       end
   | None => False
@@ -45,7 +81,7 @@ Definition mixed_history : list input :=
    ICompileError (VExc "LexException" 1); IValue (VInt 3); IRunError (VExc "NameError" 2) true; IValue (VInt 4)].
 Definition mixed_history_meets : Prop :=
   NoDup (results mixed_history) /\ ~ In VNone (results mixed_history) /\
-  slots_are (run_abstract (fun _ => None) mixed_history initial) [VInt 4; VInt 3; VInt 2; VInt 1].
+  slots_are (run_abstract table (fun _ => None) mixed_history initial) [VInt 4; VInt 3; VInt 2; VInt 1].
 Example mixed_history_ok : mixed_history_meets.
 Proof.
   split; [|split].
